@@ -145,6 +145,28 @@ def mLine (ws : List String) : String := Id.run do
         if ir.panic.isNone && showRes model ≠ ires then
           issues := issues ++ [s!"DIFF {an}: model {showRes model} impl {ires}"]
     | _ => issues := issues ++ ["bad-res-field"]
+  -- C04: prefix preference never lowers a score and raises it by at most the prefix bonus
+  match (get "ppo").splitOn "/" with
+  | [a, b] =>
+    if c.nn then
+      match a.toNat?, b.toNat? with
+      | some off, some on =>
+        if on < off || on > off + Gen.MAX_PREFIX_BONUS then
+          -- which path of the matcher produced the score (model's view)
+          let path : String :=
+            if c.n.length = c.h.length then "exact-length"
+            else if c.n.length = 1 then "one-character"
+            else match c.hrep with
+              | .ascii => match prefilterAscii c.cfg c.h c.n false with
+                | some (st, _, e) => if c.n.length = e - st then "contiguous" else if slabFits 1 (e - st) c.n.length then "matrix" else "greedy-fallback"
+                | none => "none"
+              | .unicode => match prefilterNonAscii c.cfg c.h c.n false with
+                | some (st, e) => if c.n.length = e - st then "contiguous" else if slabFits 4 (e - st) c.n.length then "matrix" else "greedy-fallback"
+                | none => "none"
+          issues := issues ++ [s!"ORACLE C04 fuzzy: prefix preference changes the score from {off} to {on} (must not lower it nor raise it by more than {Gen.MAX_PREFIX_BONUS}) on the {path} path"]
+      | none, none => pure ()
+      | _, _ => issues := issues ++ [s!"ORACLE C01 fuzzy: the decision depends on prefer_prefix: {a} vs {b}"]
+  | _ => pure ()
   if issues.isEmpty then "ok" else " ## ".intercalate issues
 
 /-- `X cs= h= n= slab= views=off:len:align,…` — the five views the real slab handed out -/
